@@ -88,6 +88,20 @@ static ES: Mutex<Option<EState>> = Mutex::new(None);
 /// under: C14 normally; C18 when the registry-churn family of C18 runs this world (an advancement
 /// that left a registered pinned participant behind has overlooked it).
 static LAG_PROP: Mutex<&'static str> = Mutex::new("C14");
+/// When another property's check runs this world, an observation of C16's model oracle (which
+/// does not corrupt anything: the announced epoch or pin state merely differs from the model)
+/// is counted and the case goes on, so that the consequence for the property being checked
+/// (e.g. a deferred function running inside a critical section, C13) can still be observed.
+static C16_SOFT: std::sync::atomic::AtomicBool = std::sync::atomic::AtomicBool::new(false);
+static C16_SOFT_HITS: std::sync::atomic::AtomicU64 = std::sync::atomic::AtomicU64::new(0);
+
+fn c16_violation(signature: &str, detail: &str) {
+    if C16_SOFT.load(std::sync::atomic::Ordering::SeqCst) {
+        C16_SOFT_HITS.fetch_add(1, std::sync::atomic::Ordering::SeqCst);
+        return;
+    }
+    violation("C16", "O-pinned", signature, detail)
+}
 
 fn with<R>(f: impl FnOnce(&mut EState) -> R) -> R {
     let mut g = match ES.lock() {
@@ -246,6 +260,9 @@ thread_local! {
 
 fn sample(me: usize, _site: u32) {
     let g = circ::verif::default_collector().verif_epoch();
+    if std::env::var_os("VCHECK_TRACE").is_some() {
+        eprintln!("step t{} {} global={} local={:?}", me, sched::site_name(_site), g >> 1, if REGISTERED.with(|r| r.get()) { circ::verif::local_state() } else { None });
+    }
     let mine = if REGISTERED.with(|r| r.get()) { circ::verif::local_state().map(|s| s.0) } else { None };
     with(|e| {
         e.samples += 1;
@@ -290,7 +307,7 @@ fn sample(me: usize, _site: u32) {
                 e.checked[t] = false;
                 e.ending[t] = false;
             } else {
-                violation("C16", "O-pinned", "O-pinned/unpinned-while-guard-live", &format!("thread t{} shows as unpinned although it holds a live guard; trace: {}", t, tail(e)));
+                c16_violation("O-pinned/unpinned-while-guard-live", &format!("thread t{} shows as unpinned although it holds a live guard; trace: {}", t, tail(e)));
             }
         }
     })
@@ -353,7 +370,7 @@ impl Eth {
                     what, self.tid, self.guards.len(), pinned, gc, tail(e)
                 )
             });
-            violation("C16", "O-pinned", &format!("O-pinned/model-mismatch/{}", what), &d);
+            c16_violation(&format!("O-pinned/model-mismatch/{}", what), &d);
         }
     }
 
@@ -376,7 +393,7 @@ impl Eth {
                         // nested: the announced epoch must not move
                         let after = circ::verif::local_state().map(|s| s.0);
                         if before != after {
-                            violation("C16", "O-pinned", "O-pinned/nested-pin-moved-epoch", "a nested pin changed the announced epoch");
+                            c16_violation("O-pinned/nested-pin-moved-epoch", "a nested pin changed the announced epoch");
                         }
                     }
                     with(|e| e.max_nest = e.max_nest.max(self.guards.len() as u64));
@@ -475,13 +492,13 @@ impl Eth {
                                         circ::verif::global_epoch(), tail(e)
                                     )
                                 });
-                                violation("C16", "O-pinned", "O-pinned/epoch-moved-under-live-guard-in-collection", &d);
+                                c16_violation("O-pinned/epoch-moved-under-live-guard-in-collection", &d);
                             }
                             drop(g);
                             let st1 = circ::verif::local_state();
                             if let (Some(a), Some(b)) = (st0, st1) {
                                 if a.1 != b.1 || (a.0 & 1) != (b.0 & 1) {
-                                    violation("C16", "O-pinned", "O-pinned/nested-in-collection", &format!("pin state changed across a guard created and dropped inside a deferred function: {:?} -> {:?}", a, b));
+                                    c16_violation("O-pinned/nested-in-collection", &format!("pin state changed across a guard created and dropped inside a deferred function: {:?} -> {:?}", a, b));
                                 }
                             }
                             with(|e| e.nested_closure_runs += 1);
@@ -525,7 +542,7 @@ impl Eth {
                             if let Some((raw, gc, _)) = circ::verif::local_state() {
                                 let pinned = raw & 1 == 1;
                                 if pinned != !sole || gc != nguards - 1 {
-                                    violation("C16", "O-pinned", "O-pinned/inside-reactivate_after", &format!("inside reactivate_after on {} guard of t{}: pinned={} guard_count={}", if sole { "the sole" } else { "a non-sole" }, tid, pinned, gc));
+                                    c16_violation("O-pinned/inside-reactivate_after", &format!("inside reactivate_after on {} guard of t{}: pinned={} guard_count={}", if sole { "the sole" } else { "a non-sole" }, tid, pinned, gc));
                                 }
                             }
                             for _ in 0..k {
@@ -540,11 +557,11 @@ impl Eth {
                     }));
                     if panic {
                         if res.is_ok() {
-                            violation("C16", "O-pinned", "O-pinned/panic-swallowed", "reactivate_after swallowed the closure's panic");
+                            c16_violation("O-pinned/panic-swallowed", "reactivate_after swallowed the closure's panic");
                         }
                         with(|e| e.panics_caught += 1);
                     } else if res.ok() != Some(7) {
-                        violation("C16", "O-pinned", "O-pinned/result", "reactivate_after did not return the closure's result");
+                        c16_violation("O-pinned/result", "reactivate_after did not return the closure's result");
                     }
                     if sole {
                         self.begin_cs();
@@ -569,13 +586,13 @@ impl Eth {
         });
         if !sole {
             if before != after {
-                violation("C16", "O-pinned", &format!("O-pinned/{}-nonsole-moved", what), &format!("{} on a non-sole guard changed the announced epoch from {:?} to {:?}", what, before, after));
+                c16_violation(&format!("O-pinned/{}-nonsole-moved", what), &format!("{} on a non-sole guard changed the announced epoch from {:?} to {:?}", what, before, after));
             }
         } else if undisturbed {
             let g = circ::verif::default_collector().verif_epoch();
             if let Some(a) = after {
                 if a & 1 != 1 || a >> 1 != g >> 1 {
-                    violation("C16", "O-pinned", &format!("O-pinned/{}-sole-not-repinned", what), &format!("{} on the sole guard left the participant at {:#x} while the global epoch is {}", what, a, g >> 1));
+                    c16_violation(&format!("O-pinned/{}-sole-not-repinned", what), &format!("{} on the sole guard left the participant at {:#x} while the global epoch is {}", what, a, g >> 1));
                 }
             }
         }
@@ -736,6 +753,9 @@ pub fn exec(prop: &str, v: &Value) -> Report {
     if prop == "C18" {
         *LAG_PROP.lock().unwrap() = "C18";
     }
+    if prop != "C16" {
+        C16_SOFT.store(true, std::sync::atomic::Ordering::SeqCst);
+    }
     let mut rep = if case.private { run_private(&case) } else { run_case(&case) };
     rep.nontrivial = match prop {
         "C13" => get(&rep, "executed_with_peer_cs_active_at_defer") >= 1 || (case.private && get(&rep, "executed") >= 1 && get(&rep, "private_defers_under_peer_guard") >= 1),
@@ -745,6 +765,7 @@ pub fn exec(prop: &str, v: &Value) -> Report {
         "C18" => get(&rep, "exits_while_peer_pinned") >= 1 && get(&rep, "epoch_advances_while_some_thread_pinned") >= 1,
         _ => get(&rep, "executed") >= 1,
     };
+    rep.count("c16_model_observations_tolerated", C16_SOFT_HITS.load(std::sync::atomic::Ordering::SeqCst));
     rep.label(if case.private { "private-collector" } else { "default-collector" });
     if get(&rep, "panics_caught") > 0 {
         rep.label("panic-in-reactivate_after");
@@ -869,11 +890,11 @@ fn run_private(case: &EbrCase) -> Report {
                         });
                         if let Some(a) = after {
                             if a & 1 != 1 || a >> 1 != collector.verif_epoch() >> 1 {
-                                violation("C16", "O-pinned", "O-pinned/private-sole-not-repinned", "reactivate on the sole guard of a private participant did not re-pin at the current epoch");
+                                c16_violation("O-pinned/private-sole-not-repinned", "reactivate on the sole guard of a private participant did not re-pin at the current epoch");
                             }
                         }
                     } else if before != after {
-                        violation("C16", "O-pinned", "O-pinned/private-nonsole-moved", "reactivate on a non-sole guard of a private participant moved its epoch");
+                        c16_violation("O-pinned/private-nonsole-moved", "reactivate on a non-sole guard of a private participant moved its epoch");
                     }
                     with(|e| e.reactivations += 1);
                 }
@@ -890,7 +911,7 @@ fn run_private(case: &EbrCase) -> Report {
             if let Some(hd) = &handles[p] {
                 let (raw, gc, _) = hd.verif_state();
                 if (raw & 1 == 1) != !guards[p].is_empty() || gc != guards[p].len() {
-                    violation("C16", "O-pinned", "O-pinned/private-model-mismatch", &format!("participant {} holds {} guards but shows pinned={} guard_count={}", p, guards[p].len(), raw & 1, gc));
+                    c16_violation("O-pinned/private-model-mismatch", &format!("participant {} holds {} guards but shows pinned={} guard_count={}", p, guards[p].len(), raw & 1, gc));
                 }
             }
         }
@@ -1075,6 +1096,68 @@ pub fn private(w: EW, max_ops: usize) -> BoxedStrategy<Value> {
                 private: true,
             })
             .unwrap()
+        })
+        .boxed()
+}
+
+/// E1: a collecting thread whose bag overflows *inside* try_advance's registry scan (because the
+/// scan unlinks the entry of an exited thread and defers its destruction), with a peer advancing
+/// the epoch around that moment. A lagging participant D keeps the collecting thread's own
+/// periodic try_advance (every 64th deferral) from moving the epoch while the bag fills up.
+/// Parameters: bag fill level at unpin, park positions, peer rounds, number of exited threads.
+pub fn e1() -> BoxedStrategy<Value> {
+    (
+        0u8..20,
+        (58u32..70, 1u32..4, 0u32..90, 0u32..60),
+        (0u8..3, 0u8..3, 0u8..3, 1u8..3, any::<bool>(), any::<bool>()),
+    )
+        .prop_map(|(align, (fill, nth, n2, n3), (r1, r2, r3, exited, flush_first, with_lagger))| {
+            let d = |k: EK, a: u8| EOp { k, a, b: 0 };
+            let mut a: Vec<EOp> = vec![d(EK::Pin, 0)];
+            if flush_first {
+                a.push(d(EK::Flush, 0));
+            }
+            a.push(d(EK::Burst, 1));
+            for _ in 45..fill {
+                a.push(d(EK::Defer, 0));
+            }
+            if !flush_first {
+                a.push(d(EK::Flush, 0));
+            }
+            let setup = a.len() as u32;
+            a.push(d(EK::DropGuard, 0));
+            a.push(d(EK::Round, 0));
+            let b: Vec<EOp> = (0..(r1 + r2 + r3 + 2)).map(|_| d(EK::Round, 0)).collect();
+            let dd: Vec<EOp> = vec![d(EK::Pin, 0), d(EK::DropGuard, 0)];
+            let mut threads = vec![a, b, dd];
+            for _ in 0..exited {
+                threads.push(vec![d(EK::Nop, 1)]);
+            }
+            let (ta, tb, td) = (0u8, 1u8, 2u8);
+            let mut sched = Vec::new();
+            for t in 0..exited {
+                sched.push(Directive { thread: 3 + t, until: Until::OpIndex(1) });
+            }
+            if with_lagger {
+                sched.push(Directive { thread: td, until: Until::OpIndex(1) });
+                sched.push(Directive { thread: tb, until: Until::OpIndex(1) });
+            }
+            sched.push(Directive { thread: ta, until: Until::OpIndex(setup) });
+            for t in 0..exited {
+                sched.push(Directive { thread: 3 + t, until: Until::End });
+            }
+            if with_lagger {
+                sched.push(Directive { thread: td, until: Until::OpIndex(2) });
+            }
+            let base = if with_lagger { 1 } else { 0 };
+            sched.push(Directive { thread: ta, until: Until::Site { site: site::EPOCH_LOADED, nth, ops: 1 } });
+            sched.push(Directive { thread: tb, until: Until::OpIndex(base + r1 as u32) });
+            sched.push(Directive { thread: ta, until: Until::Steps(n2) });
+            sched.push(Directive { thread: tb, until: Until::OpIndex(base + (r1 + r2) as u32) });
+            sched.push(Directive { thread: ta, until: Until::Steps(n3) });
+            sched.push(Directive { thread: tb, until: Until::OpIndex(base + (r1 + r2 + r3) as u32) });
+            sched.push(Directive { thread: ta, until: Until::End });
+            serde_json::to_value(EbrCase { align, threads, sched, private: false }).unwrap()
         })
         .boxed()
 }
